@@ -263,6 +263,11 @@ impl<'r> Gen<'r> {
                     if triple && self.r.chance(1, 3) {
                         self.eol();
                         self.constructs.push("fstring-multiline");
+                    } else if !triple && !raw && self.in_fstring == 0 && self.r.chance(1, 6) {
+                        // a line continuation inside the literal text of a single-quoted f-string
+                        self.emit("\\");
+                        self.eol();
+                        self.constructs.push("fstring-line-continuation");
                     }
                 }
                 _ => {
